@@ -228,7 +228,7 @@ pub fn run(ctx: &mut Ctx) {
             let cfg = if r.chance(1, 8) {
                 // an empty configuration and the fixed C14 variants also take part
                 let pv = c14::port_variants();
-                Cfg { deny: r.chance(1, 2), port: pv[r.usize(pv.len())].1.clone(), addr: None, net: None }
+                Cfg { deny: r.chance(1, 2), port: pv[r.usize(pv.len())].1.clone(), addr: None, net: None, style: r.below(6) as u8 }
             } else {
                 trace_cfg(&mut r, &views)
             };
